@@ -2,7 +2,8 @@
    Theorem statements only; proofs are in Proofs/Measures*.v. *)
 From Coq Require Import ZArith List Bool Arith Reals.
 From SP Require Import Model.Num Model.Arrow Model.Measures Proofs.BoundsProofs
-  Spec.MeasuresSpec Proofs.MeasuresProofs Proofs.MeasuresMapProofs Proofs.MeasuresArrayProofs.
+  Spec.MeasuresSpec Proofs.MeasuresProofs Proofs.MeasuresMapProofs Proofs.MeasuresArrayProofs
+  Proofs.MeasuresRealProofs Proofs.MeasuresScalarProofs.
 Import ListNotations.
 Local Open Scope nat_scope.
 
@@ -92,6 +93,21 @@ Theorem length_translate : forall dx dy r,
 Proof. exact MeasuresMapProofs.length_translate. Qed.
 Print Assumptions length_translate.
 
+(* The spec of length is Sigma sqrt(IZR t) over those terms ([length_R]); it is the sum
+   of the Euclidean lengths of the segments with both ends finite ... *)
+Theorem C14_length_is_euclidean : forall ps : list (num * num),
+  length_R (seg_terms ps) = seg_lengths_R ps.
+Proof. exact MeasuresRealProofs.length_R_segments. Qed.
+Print Assumptions C14_length_is_euclidean.
+
+(* ... and when every term is a perfect square (axis-parallel / Pythagorean segments)
+   it is exactly the integer [exact_sum] returns, which the correspondence check
+   compares exactly with the implementation's float.  (Rounding of the float sqrt /
+   summation otherwise is outside the model: validated to 1e-12, "partial".) *)
+Theorem C14_length_exact : forall ts s, exact_sum ts = Some s -> length_R ts = IZR s.
+Proof. exact MeasuresRealProofs.exact_sum_correct. Qed.
+Print Assumptions C14_length_exact.
+
 (* ---- array form = map of the ring-level measure over the elements ---- *)
 
 (* For every kind (all three nesting depths) and every well-formed buffer layout
@@ -110,7 +126,46 @@ Theorem C14_array_is_map : forall k a,
 Proof. exact MeasuresArrayProofs.array_is_map. Qed.
 Print Assumptions C14_array_is_map.
 
+(* scalar form = array form: row i of the array equals the scalar property of the
+   element re-encoded from its own nested lists with offsets starting at 0
+   ([fresh_scalar]: what arr[i] builds), for every kind and nesting depth *)
+Theorem C14_scalar_array_agree : forall k a i,
+  length (la_offs a) = depth k -> wf_listarr a = true -> even_inner a = true ->
+  i < la_len a -> isna_at (la_valid a) (la_off a) i = false ->
+  nth i (arr_area k a) None = sc_area k (fresh_scalar k a i) /\
+  nth i (arr_length k a) None = Some (sc_length k (fresh_scalar k a i)).
+Proof. exact MeasuresScalarProofs.scalar_array_agree. Qed.
+Print Assumptions C14_scalar_array_agree.
+
+(* [elem_rings] refines the flat decoding of Model/Arrow.v (the abstraction function
+   shared with the other properties): the rings of element i, concatenated, are the
+   coordinates of element i *)
+Theorem C14_elem_rings_flat : forall a,
+  wf_listarr a = true -> 1 <= length (la_offs a) <= 3 ->
+  forall i, i < la_len a -> concat (elem_rings a i) = elem_flat a i.
+Proof. exact MeasuresScalarProofs.elem_rings_flat. Qed.
+Print Assumptions C14_elem_rings_flat.
+
+(* the rings of a multipolygon element are those of its parts, in order *)
+Theorem C14_parts_rings : forall a o0 o1 o2,
+  la_offs a = [o0; o1; o2] -> wf_listarr a = true ->
+  forall i, i < la_len a -> concat (elem_parts a i) = elem_rings a i.
+Proof. exact MeasuresScalarProofs.elem_parts_rings. Qed.
+Print Assumptions C14_parts_rings.
+
 (* ---- boundary ---- *)
+
+(* scalar forms: MultiPolygon.boundary holds exactly the element's rings in order;
+   Polygon.boundary is the same ListScalar *)
+Theorem C14_boundary_scalar_multipolygon : forall parts,
+  sc_rings (sc_multipolygon_boundary (fresh3 parts)) = concat parts.
+Proof. exact MeasuresScalarProofs.scalar_boundary_fresh3. Qed.
+Print Assumptions C14_boundary_scalar_multipolygon.
+
+Theorem C14_boundary_scalar_polygon : forall s, sc_rings (sc_polygon_boundary s) = sc_rings s.
+Proof. exact MeasuresScalarProofs.scalar_boundary_polygon. Qed.
+Print Assumptions C14_boundary_scalar_polygon.
+
 
 Theorem C14_boundary_multipolygon : forall a o0 o1 o2,
   la_offs a = [o0; o1; o2] -> wf_listarr a = true ->
